@@ -857,7 +857,7 @@ def _analyze_directory_for_import(root, project, schema):
     elif callable(schema):
         schema_function = _with_consistency_check(schema, read_statepoint_file)
     elif isinstance(schema, str):
-        if not schema.startswith(root):
+        if not (schema == root or schema.startswith(os.path.join(root, ""))):
             schema = os.path.normpath(os.path.join(root, schema))
         schema_function = _with_consistency_check(
             _make_path_based_schema_function(schema), read_statepoint_file
